@@ -35,6 +35,9 @@ def run(ctx):
     ctx.rule('C11.f-round-starts-clean', 'every round starts with an empty received bitmap and zero counters (implicit and explicit reset), so that which shards count as given depends on this round only (clause shared with C05.a/b)')
     ctx.guard('C11.analysable', ctx.shared, {'X.full': 'C11.f-round-starts-clean', 'X.recv': 'C11.f-round-starts-clean', 'X.drop': 'C11.f-round-starts-clean'},
               resetrules.check_reset_discipline, ctx, ctx.facts(cfgs[0]), cfgs[0], 'X.drop', 'X.recv', 'X.full')
+    ctx.rule('C11.g-one-locator-evaluation', 'the erasure locator every decoder derives from the bitmap is evaluated by the one shared eval_poly, whatever engine is used (clause shared with C03.d)')
+    from . import c03
+    ctx.guard('C11.analysable', ctx.shared, {'C03.d-one-eval-poly': 'C11.g-one-locator-evaluation'}, c03.eval_poly, ctx, ctx.facts(cfgs[0]), cfgs[0])
     for cfg in cfgs:
         facts = ctx.facts(cfg)
         ctx.guard('C11.analysable', add_effects, ctx, facts, cfg)
